@@ -708,6 +708,17 @@ fn remove_tuples_from_statement(stmt: Statement) -> Result<Statement, Box<Report
                     }
                     LogArgument::LogExp(exp) => {
                         let mut sep_args = separate_tuple_for_log_call(vec![exp]);
+                        // Tuples nested inside other expressions cannot be separated.
+                        for arg in &sep_args {
+                            if let LogArgument::LogExp(exp) = arg {
+                                if exp.contains_tuple(None) {
+                                    return Err(TupleError::boxed_report(
+                                        &meta,
+                                        "A tuple cannot be used inside an expression in a log statement.",
+                                    ));
+                                }
+                            }
+                        }
                         new_args.append(&mut sep_args);
                     }
                 }
